@@ -1418,6 +1418,12 @@ class OpsMixin:
 
     def rope_eq(self, a, b):
         """equality of unexpanded strings without expanding the ints, when that is exact; else None"""
+        if isinstance(a, LazyStr) and isinstance(b, LazyStr) and len(a.parts) == len(b.parts) and \
+                all((p == q) if isinstance(p, str) and isinstance(q, str) else
+                    (isinstance(p, tuple) and isinstance(q, tuple) and p[0] == q[0] and p[1] is q[1])
+                    for p, q in zip(a.parts, b.parts)):
+            return True                                   # part for part the same pieces: the same string
+
         def norm(x):
             if isinstance(x, str):
                 return [x]
